@@ -30,7 +30,46 @@ FINDINGS = {
 }
 
 
+def annotate(op, reply):
+    """which of several woken waiters enters after a Broadcast is the Go runtime's choice: copy the observation into the op"""
+    if op.startswith("go ") and len(op.split()) == 2:
+        for x in reply.split():
+            if x.startswith("woke=") and x[5:].isdigit():
+                return op + " " + x[5:]
+    return op
+
+
+def spec_trace(rep):
+    """C18s: the log is the implementation's behaviour"""
+    inside, creating, live = set(), set(), set()
+    for op in rep["ops"]:
+        w = op.split()
+        if not w:
+            continue
+        if w[0] == "hang":
+            return "a SummonSwamp call never returned under concurrent load (log ends with `hang`)"
+        if w[0] == "ready":
+            if inside:
+                return "`%s`: call %s enters the summon body while call(s) %s are inside it (two wait slots for one name)" % (op, w[1], sorted(inside))
+            inside.add(w[1])
+        elif w[0] == "unready":
+            inside.discard(w[1])
+        elif w[0] == "create":
+            if live or creating:
+                return ("`%s`: call %s constructs an instance of the swamp while instance(s) %s are alive (stored and not yet closed): "
+                        "two instances with open files on one swamp" % (op, w[1], sorted(live) or "under construction"))
+            creating.add(w[1])
+        elif w[0] == "stored" and len(w) == 3:
+            creating.discard(w[1])
+            live.add(w[2])
+        elif w[0] == "callback" and len(w) == 2:
+            live.discard(w[1])
+    return None
+
+
 def spec_violated(rep):
+    if rep.get("correspondence") == "C18s":
+        return spec_trace(rep)
     for op, line in zip(rep["ops"], rep["impl"]):
         kv = dict(x.split("=", 1) for x in line.split() if "=" in x and not x.startswith("slots="))
         try:
@@ -51,8 +90,14 @@ def run(ctx):
     if K.build_hx(ctx) and K.build_drv(ctx):
         rc = "yes" if (facts.get("everyEntrantCounts") == "yes" and facts.get("decDeleteAtomic") == "yes") else "no"
         args = ["refCounted=" + rc, "callbackCompares=" + facts.get("callbackCompares", "unknown")]
-        c = K.correspondence(ctx, "C18", args)
+        c = P.correspondence_observed(ctx, "C18", args, annotate)
         corrs.append(("C18", args, c))
+        # genuinely concurrent summoners, closers and stale handles; the hook log must be a trace of the model
+        targs = args + ["mode=trace"]
+        ct = K.correspondence(ctx, "C18s", targs, drv_domain="C18")
+        corrs.append(("C18s", targs, ct))
+        ctx.cov["trace_inclusion"] = {"domain": "C18s", "log_lines": len(ct.ops), "rounds": len(ct.cases),
+                                      "lines_rejected_by_model": len(ct.mismatch), "event_histogram": ct.op_hist}
     else:
         ctx.violation("harness does not build against the repository", {"correspondence": "C18", "log": getattr(ctx, "hx_log", "")[-2000:]},
                       tag="build", found_input=False)
@@ -60,10 +105,19 @@ def run(ctx):
     K.report_mismatch(ctx, spec_violated)
     # Spec oracle over the whole run (implementation replies only): two live instances anywhere the
     # model did not predict them (i.e. not the listed finding) is a violation of its own
-    for _, _, c in corrs:
+    for name, dargs, c in corrs:
         if c.err:
             continue
         done = False
+        if name == "C18s":
+            for cs in c.cases:
+                rep = K.case_replay(c, cs)
+                rep["correspondence"], rep["drv_args"] = name, dargs
+                why = spec_trace(rep)
+                if why and not any(rep["flags"]):
+                    ctx.violation("implementation violates the property: " + why, rep, tag="impl")
+                    break
+            continue
         for cs in c.cases:
             for i in cs:
                 if i >= len(c.impl):
